@@ -492,10 +492,56 @@ func Eq(a, b *Term) *Term {
 			return False
 		}
 	}
+	if a.Arr {
+		if r := eqStoreChains(a, b); r != nil {
+			return r
+		}
+	}
 	if a.ID > b.ID && b.K != KConst {
 		a, b = b, a
 	}
 	return mk(KEq, 0, a, b)
+}
+
+// eqStoreChains decides the equality of two arrays that are store chains over one common root
+// without appealing to extensionality: outside the stored indices both equal the root, so they are
+// equal exactly when they agree at every index stored to in either chain. Returns nil when the
+// roots differ or the chains are long.
+func eqStoreChains(a, b *Term) *Term {
+	const maxIdx = 128
+	var idx []*Term
+	walk := func(t *Term) *Term {
+		for t.K == KStore {
+			dup := false
+			for _, j := range idx {
+				if Same(j, t.Args[1]) {
+					dup = true
+					break
+				}
+			}
+			if !dup {
+				if len(idx) >= maxIdx {
+					return nil
+				}
+				idx = append(idx, t.Args[1])
+			}
+			t = t.Args[0]
+		}
+		return t
+	}
+	ra := walk(a)
+	if ra == nil {
+		return nil
+	}
+	rb := walk(b)
+	if rb == nil || ra != rb {
+		return nil
+	}
+	cs := make([]*Term, 0, len(idx))
+	for _, j := range idx {
+		cs = append(cs, Eq(Select(a, j), Select(b, j)))
+	}
+	return And(cs...)
 }
 
 func sameShape(a, b *Term) bool {
@@ -1427,6 +1473,11 @@ func Select(arr, idx *Term) *Term {
 	if !arr.Arr || idx.W != IdxW {
 		panic("term.Select: bad sorts")
 	}
+	if idx.K != KConst && arr.K == KStore {
+		if tb := constTableOf(arr); tb != nil {
+			return tb.lookup(idx)
+		}
+	}
 	cur := arr
 	for {
 		switch cur.K {
@@ -1507,4 +1558,85 @@ func (t *Term) write(sb *strings.Builder, depth int) {
 		}
 		sb.WriteString(")")
 	}
+}
+
+// ---------------------------------------------------------------- constant tables
+
+// A constant table is an array term built only from stores of constant values at constant indices
+// over a constant array (a Go table such as decCycles_flagM). A symbolic lookup into it is encoded
+// as a decision tree over the index bits instead of a select over hundreds of stores: pure
+// bit-vector reasoning, and equal tables give equal trees.
+type constTable struct {
+	w    int
+	def  uint64
+	bits int
+	vals []uint64 // 1<<bits entries
+}
+
+var constTables = map[int]*constTable{}
+
+func constTableOf(arr *Term) *constTable {
+	if tb, ok := constTables[arr.ID]; ok {
+		return tb
+	}
+	var tb *constTable
+	defer func() { constTables[arr.ID] = tb }()
+	n := 0
+	var maxIdx uint64
+	cur := arr
+	for cur.K == KStore {
+		if cur.Args[1].K != KConst || cur.Args[2].K != KConst {
+			return nil
+		}
+		if cur.Args[1].Val > maxIdx {
+			maxIdx = cur.Args[1].Val
+		}
+		n++
+		cur = cur.Args[0]
+	}
+	if cur.K != KConstArr || cur.Args[0].K != KConst || n < 8 || maxIdx >= 1<<12 {
+		return nil
+	}
+	bits := 1
+	for uint64(1)<<uint(bits) <= maxIdx {
+		bits++
+	}
+	t := &constTable{w: arr.W, def: cur.Args[0].Val, bits: bits, vals: make([]uint64, 1<<uint(bits))}
+	for i := range t.vals {
+		t.vals[i] = t.def
+	}
+	seen := make([]bool, len(t.vals))
+	for cur = arr; cur.K == KStore; cur = cur.Args[0] {
+		i := cur.Args[1].Val
+		if !seen[i] { // the outermost store to an index wins
+			seen[i] = true
+			t.vals[i] = cur.Args[2].Val
+		}
+	}
+	tb = t
+	return tb
+}
+
+func (t *constTable) lookup(idx *Term) *Term {
+	var build func(lo uint64, bit int) *Term
+	build = func(lo uint64, bit int) *Term {
+		span := uint64(1) << uint(bit)
+		same := true
+		for i := lo + 1; i < lo+span; i++ {
+			if t.vals[i] != t.vals[lo] {
+				same = false
+				break
+			}
+		}
+		if same {
+			return Const(t.w, t.vals[lo])
+		}
+		b := Eq(Extract(idx, bit-1, bit-1), Const(1, 1))
+		return Ite(b, build(lo+span/2, bit-1), build(lo, bit-1))
+	}
+	tree := build(0, t.bits)
+	if t.bits >= IdxW {
+		return tree
+	}
+	return Ite(Ult(idx, Const(IdxW, uint64(1)<<uint(t.bits))), tree, Const(t.w, t.def))
 }
